@@ -145,18 +145,18 @@ func genC05(r *Rng) *Plan {
 		if outage == 0 && r.Chance(1, 3) {
 			outage = r.Range(1, 5)
 			ep := r.Pick("validate", "profile", "refresh")
-			kind := r.Pick("429", "503", "429", "503", "500", "401", "502", "404", "200junk", "201junk")
+			kind := r.Pick("429", "503", "429", "503", "500", "401", "502", "404", "200junk", "201junk", "503html", "429empty", "503text")
 			organic := mode == "organic" || (mode == "mixed" && r.Chance(1, 2))
 			if organic && (ep == "profile" || ep == "refresh") {
 				// make the real authenticator answer 429/503 itself: fault the IdP endpoint it depends on
 				l3ep := map[string]string{"profile": "userinfo", "refresh": "token"}[ep]
 				st := 429
-				if kind != "429" {
+				if kind != "429" && kind != "429empty" {
 					st = 500 // anything but 400/429 is "service unavailable" to sso-auth
 				}
 				p.Steps = append(p.Steps, Step{Op: "l3", Endpoint: l3ep, Sticky: true, L3: []Answer{{Status: st, Body: `{"error":"x"}`, Tag: "idp-outage"}}})
 			} else if r.Chance(1, 6) {
-				p.Steps = append(p.Steps, Step{Op: "net", Name: "proxy>" + AuthHost, Sub: r.Pick("refuse", "reset", "stall"), Arg: r.Range(1, 3)})
+				p.Steps = append(p.Steps, Step{Op: "net", Name: "proxy>" + AuthHost, Sub: r.Pick("refuse", "reset", "stall", "reset", "truncate"), Arg: r.Range(1, 6), Arg2: r.Pick0(0, 5, 40)})
 			} else {
 				p.Steps = append(p.Steps, Step{Op: "l2", Endpoint: ep, Sticky: true, L2: []L2Answer{l2Answer(kind)}})
 			}
@@ -298,6 +298,15 @@ func genC01(r *Rng) *Plan {
 				p.Steps = append(p.Steps, Step{Op: "get", B: r.Pick("b1", "b2"), Host: host, Target: r.Pick("/", "/private/x", "/oauth2/auth"), Dt: posDur(landmark(r, cfg))})
 			}
 			p.Steps = append(p.Steps, Step{Op: "l2", Sub: "clear"})
+		}
+		if r.Chance(1, 12) {
+			// the link to the authenticator is down for a while: several connections in a row are refused, reset or
+			// cut short, so that no answer at all comes back to whatever the proxy asks (however often it asks)
+			p.Steps = append(p.Steps, Step{Op: "net", Name: "proxy>" + AuthHost, Sub: r.Pick("refuse", "reset", "reset", "truncate"), Arg: r.Range(2, 6), Arg2: r.Pick0(0, 5, 40)})
+			for k, n := 0, r.Range(1, 3); k < n; k++ {
+				p.Steps = append(p.Steps, Step{Op: "get", B: r.Pick("b1", "b2"), Host: host, Target: r.Pick("/", "/private/x", "/oauth2/auth"), Dt: posDur(landmark(r, cfg))})
+			}
+			p.Steps = append(p.Steps, Step{Op: "net", Sub: "clear"})
 		}
 		st := Step{Op: "get", B: b, Host: host, Target: paths[r.Intn(len(paths))], Method: r.Pick("GET", "GET", "GET", "POST", "OPTIONS", "HEAD", "DELETE"), Dt: gap}
 		if b == "attacker" && r.Chance(1, 2) {
